@@ -2,6 +2,7 @@ import Driver.Util
 import Driver.Filter
 import Driver.Render
 import Driver.Tok
+import Driver.Registry
 namespace Driver
 
 def handle (line : String) : String :=
@@ -10,6 +11,7 @@ def handle (line : String) : String :=
   | "filter" :: rest => handleFilter rest
   | "render" :: rest => handleRender rest
   | "tok" :: rest => handleTok rest
+  | "registry" :: rest => handleRegistry rest
   | _ => bad
 
 partial def loop (hin hout : IO.FS.Stream) : IO Unit := do
